@@ -1209,7 +1209,23 @@ pub fn templated_prec_tree(rng: &mut Rng, atoms: &[Re]) -> Re {
     };
     let cls = |rng: &mut Rng| -> Re { rng.pick(atoms).clone() };
     for _ in 0..50 {
-        let t = match rng.below(11) {
+        let t = match rng.below(14) {
+            11 | 12 => {
+                // a stacked postfix pair as a UNIT between two required characters: `'a' (x?)+ 'b'`;
+                // the inner repetition may match nothing, so the outer one must too (round 10:
+                // `(r?)+` compiled as `r+` is only visible when zero occurrences are followed by
+                // required text)
+                let x = small(rng);
+                let inner = post(rng, x);
+                let outer = post(rng, inner);
+                Re::cat(Re::cat(cls(rng), outer), cls(rng))
+            }
+            13 => {
+                // an alternation as a unit under a postfix operator between required characters
+                let a = Re::alt(small(rng), small(rng));
+                let pa = post(rng, a);
+                Re::cat(cls(rng), Re::cat(pa, cls(rng)))
+            }
             9 | 10 => {
                 // two different postfix operators stacked directly on one operand: `x+?`, `x?*`, ...
                 let x = small(rng);
